@@ -322,7 +322,7 @@ def full_value(draw, ctr, depth=0, allow_structural=True, scalars=None):
         return node
     if c <= 6:
         return draw(special_leaf(ctr, allow_structural=allow_structural))
-    node = tdoc.sc(draw(scalars or SIMPLE_SCALARS), q=draw(QUOTES))
+    node = tdoc.sc(draw(scalars if scalars is not None else SIMPLE_SCALARS), q=draw(QUOTES))
     if node['v'] is None and draw(st.booleans()):
         node = {'t': 'empty'}
     node.update(_md_flags(draw))
